@@ -73,7 +73,7 @@ def sshTypeName (k : Key) : Option (List Char) :=
 /-- `certgen.ValidatePublicKeyStrength` (`k.Size()` is the modulus length in bytes) -/
 def strong (k : Key) : Bool :=
   match k.kind with
-  | .rsa => decide (KM.Gen.strengthRsaMinBytes ≤ (k.bits + 7) / 8) && decide (KM.Gen.strengthRsaMinExponent ≤ k.exponent)
+  | .rsa => decide (KM.Gen.strengthRsaMinBits ≤ k.bits) && decide (KM.Gen.strengthRsaMinExponent ≤ k.exponent)
   | .ecdsa => decide (KM.Gen.strengthEcMinBits ≤ k.bits)
   | .ed25519 => true
   | .dsa => false
